@@ -22,13 +22,14 @@ import (
 
 // Scen carries the verdict plumbing of one cluster scenario.
 type Scen struct {
-	Prop string
-	Res  *vk.Result
-	Seed uint64
-	Case int
-	Cl   *Cluster
-	Dead bool
-	Cfg  map[string]interface{}
+	Prop   string
+	Res    *vk.Result
+	Seed   uint64
+	Case   int
+	Cl     *Cluster
+	Others []*Cluster
+	Dead   bool
+	Cfg    map[string]interface{}
 }
 
 func (s *Scen) Fail(props []string, sig, what string) {
@@ -82,6 +83,16 @@ func tailOf(path string, n int) []string {
 
 func (s *Scen) inconclusive(f string, a ...interface{}) {
 	s.Dead = true
+	if keep := os.Getenv("VERIF_DEV_KEEP"); keep != "" && s.Cl != nil {
+		os.MkdirAll(keep, 0755)
+		for _, cl := range append([]*Cluster{s.Cl}, s.Others...) {
+			for _, p := range cl.Reps {
+				b, _ := os.ReadFile(p.Log)
+				os.WriteFile(filepath.Join(keep, fmt.Sprintf("inc-case%d-%s-r%d.log", s.Case, cl.Name, p.Idx)), b, 0644)
+			}
+			os.WriteFile(filepath.Join(keep, fmt.Sprintf("inc-case%d-%s-events.txt", s.Case, cl.Name)), []byte(strings.Join(cl.Events, "\n")+"\n"+fmt.Sprintf(f, a...)), 0644)
+		}
+	}
 	s.Res.Inconclusive = append(s.Res.Inconclusive, fmt.Sprintf("case %d: ", s.Case)+fmt.Sprintf(f, a...))
 }
 
